@@ -234,7 +234,8 @@ Definition node_ok (g : gram) (n : node) : bool :=
 Definition cell_spec (inhibited : Z) (init : Z -> Z -> Z) (pairs : list (Z * Z)) (l r : Z) : Z :=
   if existsb (fun pr => (fst pr =? l) && (snd pr =? r)) pairs then inhibited else init l r.
 
-Definition wf_gram (g : gram) : Prop := 0 <= nl g <= 32767 /\ 0 <= nr g <= 32767.
+(* the matrix has at least the row / column of the BOS/EOS id 0, and its dimensions are i16 values *)
+Definition wf_gram (g : gram) : Prop := 1 <= nl g <= 32767 /\ 1 <= nr g <= 32767.
 
 (* conditions on the facts under which the theorems of Proofs/ParamsProofs.v hold; decided by vm_compute in Properties/C20.v *)
 Definition facts_ok (F : pfacts) : bool :=
